@@ -259,6 +259,7 @@ func init() {
 		return boolVal(mkOr(mkNot(x.t), y.t))
 	})
 	api("Tier", func(fr *frame, args []value) value { return Tier })
+	api("Native", func(fr *frame, args []value) value { return false })
 	api("SetTier", func(fr *frame, args []value) value { return nil })
 	api("PoolChoice", func(fr *frame, args []value) value { cur.poolPick = args[0].(bool); return nil })
 	api("MapOrderChoice", func(fr *frame, args []value) value { cur.mapOrder = args[0].(bool); return nil })
